@@ -6,7 +6,7 @@ static void usage(void) { fprintf(stderr, "usage: drv_api --out F [--seed S] [--
 
 int main(int argc, char** argv) {
   const char* out = NULL; const char* profile = "c01"; const char* progpath = NULL; uint64_t seed = 1; long ops = 2000;
-  const char* workload = NULL; const char* c18pat = NULL; int rounds = 3; long c18step = 100; long fault_at = 0; int fault_persist = 0, fault_kind = 0, recover_after = 0, count_os = 0;
+  const char* workload = NULL; const char* scenario = NULL; const char* c18pat = NULL; int rounds = 3; long c18step = 100; long fault_at = 0; int fault_persist = 0, fault_kind = 0, recover_after = 0, count_os = 0;
   for (int i = 1; i < argc; i++) {
     if (!strcmp(argv[i], "--out") && i + 1 < argc) out = argv[++i];
     else if (!strcmp(argv[i], "--seed") && i + 1 < argc) seed = strtoull(argv[++i], NULL, 10);
@@ -21,6 +21,7 @@ int main(int argc, char** argv) {
     else if (!strcmp(argv[i], "--workload") && i + 1 < argc) workload = argv[++i];
     else if (!strcmp(argv[i], "--rounds") && i + 1 < argc) rounds = atoi(argv[++i]);
     else if (!strcmp(argv[i], "--c18") && i + 1 < argc) c18pat = argv[++i];
+    else if (!strcmp(argv[i], "--scenario") && i + 1 < argc) scenario = argv[++i];
     else if (!strcmp(argv[i], "--step") && i + 1 < argc) c18step = atol(argv[++i]);
     else if (!strcmp(argv[i], "--midclock")) c18_midclock = 1;
     else if (!strcmp(argv[i], "--gentle")) { c18_midclock = 1; c18_gentle = 1; }
@@ -80,6 +81,76 @@ int main(int argc, char** argv) {
 #if defined(VF_SHIM)
   vf_fault_at = fault_at; vf_fault_persist = fault_persist; vf_fault_kind = fault_kind;
 #endif
+  if (scenario && !strcmp(scenario, "arenadel")) {
+    /* a heap bound to a (non-exclusive) managed arena is deleted while the thread's backing heap has pages in the same segment; then the
+       blocks of the deleted heap are freed by the same thread (C10: they stay valid and individually freeable) */
+    int ar = arena_setup((64u << 20), 65536, 0);
+    int hi = heap_new_in_arena_op(ar);
+    if (hi > 0) {
+      int b1 = op_alloc_ex(A_malloc, 9000, 0, 0, 0, 0);                       /* backing heap: its page lies in the thread's (only) segment, inside the arena */
+      int s1 = op_alloc_ex(A_heap_malloc, 5000, 0, 0, hi, 0), s2 = op_alloc_ex(A_heap_malloc, 300, 0, 0, hi, 0);
+      op_checkall();
+      allow_arena_heap_delete = 1; heap_delete_op(hi); allow_arena_heap_delete = 0;
+      op_checkall();
+      if (s1 >= 0) op_free_slot(s1, FR_free);
+      if (s2 >= 0) op_free_slot(s2, FR_free);
+      if (b1 >= 0) op_free_slot(b1, FR_free);
+      op_alloc_ex(A_malloc, 5000, 0, 0, 0, 0);
+    }
+    op_checkall(); ops = 0;
+  }
+  if (scenario && !strcmp(scenario, "excldel")) {
+    /* the only heap bound to an exclusive arena is deleted: its pages cannot go to the unbound backing heap, they are abandoned (whole
+       segments: nobody else has pages there); afterwards the default heap allocates the same size classes -- outside the arena (C15) */
+    int ar = arena_setup((96u << 20), 65536 + 4096 * (size_t)vf_randn(5), 1);
+    int hi = heap_new_in_arena_op(ar);
+    if (hi > 0) {
+      int mine[40]; int nm = 0;
+      static const size_t szs[] = {48, 48, 200, 200, 1000, 5000, 5000, 20000, 70000, 300000};
+      for (int j = 0; j < 30; j++) { int s_ = op_alloc_ex(A_heap_malloc, szs[j % 10] + (size_t)vf_randn(8), 0, 0, hi, 0); if (s_ >= 0) mine[nm++] = s_; }
+      op_checkall();
+      allow_arena_heap_delete = 1; heap_delete_op(hi); allow_arena_heap_delete = 0;
+      for (int j = 0; j < 400; j++) op_alloc_ex(A_malloc, szs[j % 10] + (size_t)vf_randn(8), 0, 0, 0, 0);
+      op_checkall();
+      for (int j = 0; j < nm; j += 2) op_free_slot(mine[j], FR_free);
+      for (int j = 0; j < 200; j++) op_alloc_ex(A_malloc, szs[j % 10] + (size_t)vf_randn(8), 0, 0, 0, 0);
+      do_collect(1);
+      for (int j = 0; j < 100; j++) op_alloc_ex(A_malloc, szs[j % 10], 0, 0, 0, 0);
+    }
+    op_checkall(); ops = 0;
+  }
+  if (scenario && !strcmp(scenario, "arena64")) {
+    /* an exclusive arena of exactly 64 blocks (no left-over bits behind the last block in its bitmap field), memory not known to be
+       zero: the bound heap takes 62 blocks, then asks for more than the two that are left -- NULL, not memory behind the arena (C15) */
+    size_t total = ((size_t)64 << 25) + ((size_t)64 << 20);
+    uint8_t* raw = (uint8_t*)syscall(SYS_mmap, NULL, total, PROT_READ | PROT_WRITE, MAP_PRIVATE | MAP_ANONYMOUS | MAP_NORESERVE, -1, 0);
+    if (!((long)raw < 0 && (long)raw > -4096) && nars < MAXARENAS) {
+#if defined(VF_SHIM)
+      vf_os_event("mmap", raw, total, "RW", 1, 0);
+#endif
+      uint8_t* start = (uint8_t*)(((uintptr_t)raw + ((size_t)32 << 20) - 1) & ~(((uintptr_t)32 << 20) - 1));
+      size_t given = (size_t)64 << 25;
+      mi_arena_id_t aid = 0;
+      vf_in_call = 1; bool ok = mi_manage_os_memory_ex(start, given, true, false, false /* not zero */, -1, true, &aid); vf_in_call = 0;
+      if (ok) {
+        size_t asz = 0; void* ast = mi_arena_area(aid, &asz);
+        ar_t* ar = &ars[nars++]; ar->aid = aid; ar->id = nars; ar->start = ast; ar->size = asz; ar->excl = 1;
+        vf_logf("{\"e\":\"arena\",\"id\":%d,\"a\":[%ld,%ld],\"len\":[%ld,%ld],\"ga\":[%ld,%ld],\"glen\":[%ld,%ld],\"excl\":true}", ar->id,
+                VF_HI(ast), VF_LO(ast), VF_HI(asz), VF_LO(asz), VF_HI(start), VF_LO(start), VF_HI(given), VF_LO(given));
+        vf_log_line_end();
+        int hi = heap_new_in_arena_op(nars - 1);
+        if (hi > 0) {
+          op_alloc_ex(A_heap_malloc, 3000, 0, 0, hi, 0);                                                      /* the heap's first segment: block 0 */
+          int big = op_alloc_ex(A_heap_malloc, ((size_t)60 << 25) + ((size_t)20 << 20), 0, 0, hi, 0);       /* 61 blocks behind it: two are left */
+          for (int k = 0; k < 3; k++) op_alloc_ex(A_heap_malloc, ((size_t)70 << 20) + (size_t)k * ((size_t)30 << 20), 0, 0, hi, 0);   /* 3, 4, 5 blocks: more than is left */
+          op_alloc_ex(A_heap_malloc, (size_t)20 << 20, 0, 0, hi, 0);
+          op_checkall();
+          if (big >= 0) op_free_slot(big, FR_free);
+        }
+      }
+    }
+    op_checkall(); ops = 0;
+  }
   if (progpath) { run_program(progpath); ops = 0; }
   if (workload) { run_rounds(workload, rounds, recover_after); ops = 0; }
   if (c18pat) { run_c18(c18pat, c18step); ops = 0; }
